@@ -266,7 +266,14 @@ func (w *simWorld) faultReply(req *http.Request, rec *recorded, f *fault, _ stri
 	rec.Fault = f.Kind
 	switch f.Kind {
 	case "status":
-		return jsonResp(req, 500, `{"errors":[{"message":"boom"}]}`), nil
+		// what sits between gateway and service may answer for it: the status is what counts, whatever the body says
+		// (the variant follows from the request's content, never from arrival order)
+		bodies := []struct {
+			code int
+			body string
+		}{{500, `{"errors":[{"message":"boom"}]}`}, {502, `{"message":"Bad Gateway"}`}, {503, `{}`}, {500, `{"data":null}`}}
+		v := bodies[(len(rec.Query)+len(rec.URL))%len(bodies)]
+		return jsonResp(req, v.code, v.body), nil
 	case "transport":
 		return nil, errors.New("connection reset by peer (simulated)")
 	case "timeout":
